@@ -137,6 +137,12 @@ def _run_ops(case, ctx, g, x):
         tmp = tempfile.mkdtemp(prefix='c19-', dir=os.path.join(HERE, '.work'))
         try:
             path = os.path.join(tmp, 'obj.TT')
+            if case['seed'] % 4 == 1:
+                # a name WITHOUT the extension, next to an older file of ANOTHER object called <name>.TT: load(<name>) reads the file it was given
+                decoy = torchtt.TT([torch.ones_like(c.detach()) * 7 for c in x.cores][:1] if len(x.cores) == 1 else [torch.ones([1, 2, 1], dtype=torch.float64), torch.ones([1, 3, 1], dtype=torch.float64)])
+                ctx.lib('save', torchtt.save, decoy, path)
+                path = os.path.join(tmp, 'obj')
+                ctx.count('saved-under-a-name-without-extension-next-to-an-older-.TT-file')
             r = ctx.lib('save', torchtt.save, x, path)
             if isinstance(r, Raised):
                 ctx.viol(key + '/clause=save-raises:%s' % r.type, '%s: save raised %r' % (what, r))
